@@ -1,5 +1,232 @@
 import RV.Json
+import RV.Drv.Arith
+import RV.Model.LabelPatch
+import RV.Oracle.C12
+/-!
+Driver for suite `labelpatch` (property C12).
+
+ops
+* `patch`      — `PatchPodBatchLabel` through the exported entry point: first pass, stored
+                 labels afterwards, second pass, and a pass on the scrambled pod set
+* `filter`     — `FilterPodsForUnorderedUpdate` / `FilterPodsForOrderedUpdate`
+* `increments` — `calculatePlannedStepIncrements`
+* `satisfied`  — `batchLabelSatisfied`
+-/
 namespace RV.Drv.LabelPatch
-open Lean RV
-def handle : Handler := fun op _ _ => .error s!"LabelPatch: op {op} not implemented"
+open Lean RV RV.Arith RV.LabelPatch RV.Oracle.C12
+
+def ownerOfJson (j : Json) : R Owner :=
+  match jopt j "owner" with
+  | none => .ok .none
+  | some o =>
+    match jopt o "other" with
+    | some _ => .ok .other
+    | none => do
+      let name ← fStr o "rs"
+      let uid := match jopt o "uid" with
+        | some (.str s) => s
+        | _ => ""
+      return .rs name uid
+
+def podOfJson (j : Json) : R Pod := do
+  return { name := ← fStr j "name", terminating := ← fBool j "term", missing := ← fBool j "missing",
+           tmplHash := ← fOptStr j "tmpl", ctrlHash := ← fOptStr j "ctrl", owner := ← ownerOfJson j,
+           rolloutId := ← fOptStr j "rid", batchId := ← fOptStr j "bid", noNeed := ← fOptStr j "noneed" }
+
+def listOrNull {α} (f : Json → R α) (j : Json) (k : String) : R (List α) :=
+  match jopt j k with
+  | none => .ok []
+  | some v => jlistM f v
+
+def cfgOfJson (j : Json) : R Cfg := do
+  let part ← match jopt j "partition" with
+    | none => pure (IntOrPct.int 0)
+    | some p => RV.Drv.Arith.iosOfJson p
+  return { rolloutId := ← fStr j "id", updateRevision := ← fStr j "rev",
+           batches := ← listOrNull RV.Drv.Arith.iosOfJson j "batches",
+           replicas := ← fInt j "replicas", currentBatch := ← fInt j "cur",
+           plannedUpdated := ← fInt j "planned", desiredUpdated := ← fInt j "desired",
+           desiredPartition := part }
+
+def filterOfJson (j : Json) : R FilterKind := do
+  match ← fStr j "filter" with
+  | "none" => return .none
+  | "unordered" => return .unordered
+  | "ordered" => return .ordered
+  | s => .error s!"bad filter {s}"
+
+def envOfJson (j : Json) : R Env := do
+  let rs ← listOrNull (fun r => do return (← fStr r "name", ← fStr r "hash")) j "rs"
+  return ⟨rs⟩
+
+def sortByName {α} (name : α → String) (l : List α) : List α :=
+  l.mergeSort (fun a b => !(name b < name a))
+
+def resStr : Outcome → String
+  | .panic => "panic"
+  | .done true _ => "err"
+  | .done false _ => "ok"
+
+def patchesOf : Outcome → List Patch
+  | .panic => []
+  | .done _ ps => ps
+
+/-- canonical patch list: label patches in issue order, hash-only patches sorted by pod name -/
+def patchesJ (cfg : Cfg) (fp : List Pod) (ps : List Patch) : Json :=
+  let named := ps.map fun p => ((fp[p.idx]?.map (·.name)).getD s!"#{p.idx}", p)
+  let lab := named.filter (fun x => x.2.batch.isSome)
+  let hashOnly := sortByName (·.1) (named.filter (fun x => x.2.batch.isNone))
+  arrJ ((lab ++ hashOnly).map fun (n, p) =>
+    mkObj [("name", strJ n),
+           ("rid", if p.batch.isSome then strJ cfg.rolloutId else .null),
+           ("bid", optJ (fun b => strJ (itoa b)) p.batch),
+           ("hash", optJ strJ p.hash)])
+
+def passJ (cfg : Cfg) (fp : List Pod) (out : Outcome) : Json :=
+  mkObj [("res", strJ (resStr out)), ("patches", patchesJ cfg fp (patchesOf out))]
+
+/-- the original pods with the labels of the patched list (matched by name) -/
+def mergeBack (orig after : List Pod) : List Pod :=
+  orig.map fun p => (after.find? (·.name == p.name)).getD p
+
+def storedJ (pods : List Pod) : Json :=
+  arrJ ((sortByName (·.name) (pods.filter (!·.missing))).map fun p =>
+    mkObj [("name", strJ p.name), ("rid", optJ strJ p.rolloutId), ("bid", optJ strJ p.batchId),
+           ("ctrl", optJ strJ p.ctrlHash)])
+
+/-- the implementation's patches as model patches addressed into `fp` -/
+def implPatches (fp : List Pod) (j : Json) : R (List Patch) := do
+  (← fArr j "patches").mapM fun p => do
+    let name ← fStr p "name"
+    let idx := (fp.findIdx? (·.name == name)).getD fp.length
+    let rid ← fOptStr p "rid"
+    let bid ← fOptStr p "bid"
+    let batch : Option Nat :=
+      if rid.isNone && bid.isNone then none else
+      match atoi (lbl bid) with
+      | some v => some v.toNat
+      | none => some 0
+    return { idx := idx, batch := batch, hash := ← fOptStr p "hash" }
+
+/-- `fp` with the labels the implementation's store holds afterwards -/
+def implAfter (fp : List Pod) (j : Json) : R (List Pod) := do
+  let stored ← (← fArr j "pods").mapM fun p => do
+    return (← fStr p "name", ← fOptStr p "rid", ← fOptStr p "bid", ← fOptStr p "ctrl")
+  return fp.map fun p =>
+    match stored.find? (·.1 == p.name) with
+    | some (_, rid, bid, ctrl) => { p with rolloutId := rid, batchId := bid, ctrlHash := ctrl }
+    | none => p
+
+def bucket (n : Nat) : String :=
+  if n == 0 then "0" else if n ≤ 2 then "1-2" else if n ≤ 5 then "3-5" else if n ≤ 9 then "6-9" else "10+"
+
+def filterName : FilterKind → String
+  | .none => "none" | .unordered => "unordered" | .ordered => "ordered"
+
+def handlePatch (inp impl : Json) : R OpResult := do
+  let cfg ← cfgOfJson (← jget inp "cfg")
+  let kind ← filterOfJson inp
+  let env ← envOfJson inp
+  let pods ← listOrNull podOfJson inp "pods"
+  -- model
+  let (fp, out) := patchTop env kind cfg pods
+  let afterFp := applyPatches cfg.rolloutId (patchesOf out) fp
+  let after := mergeBack pods afterFp
+  let second : Json :=
+    match out with
+    | .done false _ =>
+      let (fp2, out2) := patchTop env kind cfg after
+      passJ cfg fp2 out2
+    | _ => .null
+  let spods := pods.map (scramble cfg)
+  let (sfp, sout) := patchTop env kind cfg spods
+  let model := mkObj [("res", strJ (resStr out)), ("patches", patchesJ cfg fp (patchesOf out)),
+                      ("pods", storedJ after), ("second", second), ("scrambled", passJ cfg sfp sout)]
+  -- oracles on the implementation's output
+  let implRes ← fStr impl "res"
+  let ips ← implPatches fp impl
+  let iafter ← implAfter fp impl
+  let pre := curInRange cfg && namesOk kind pods
+  let early := cfg.rolloutId == "" || pods.isEmpty
+  let mut holds : List (String × Bool) := []
+  let mut tags : List String := [s!"filter:{filterName kind}", s!"res:{implRes}", s!"pods:{bucket pods.length}",
+    s!"patches:{bucket (ips.filter (·.batch.isSome)).length}"]
+  if early then tags := "trivial" :: tags
+  if !pre then tags := "outside-precondition-vi" :: tags
+  if ips.any (·.batch.isNone) then tags := "hash-only-patch" :: tags
+  if pods.any (·.missing) then tags := "pod-missing" :: tags
+  if pods.any (·.terminating) then tags := "pod-terminating" :: tags
+  let cur := pods.filter (fun p => hasId cfg p && !early)
+  if cur.any (fun p => match atoi (lbl p.batchId) with
+      | some v => v < 1 || v > cfg.batches.length
+      | none => false) then tags := "bid-out-of-range" :: tags
+  if cur.any (fun p => (atoi (lbl p.batchId)).isNone) then tags := "bid-non-numeric" :: tags
+  if pods.any (fun p => !hasId cfg p && p.rolloutId.isSome) then tags := "foreign-id" :: tags
+  if pre then holds := ("C12.vi", implRes != "panic") :: holds
+  match plannedIncrements cfg.batches cfg.replicas cfg.currentBatch with
+  | none => tags := "plan-index-out-of-range" :: tags
+  | some planned =>
+    match resolvePods env [] fp with
+    | none =>
+      tags := "rs-get-failed" :: tags
+      holds := [("C12.i", ips.isEmpty || early), ("C12.ii", ips.isEmpty || early), ("C12.iii", ips.isEmpty || early)] ++ holds
+    | some rps =>
+      if rps.any (·.hp.isSome) then tags := "rs-hash-computed" :: tags
+      if planned.any (· < 0) then tags := "plan-not-monotone" :: tags
+      if rps.any (fun rp => hasId cfg rp.pod && !rp.pod.terminating && !liveNew cfg rp) then
+        tags := "old-revision-pod-with-current-id" :: tags
+      if (withPods rps iafter).any (fun rp => liveNew cfg rp && !hasId cfg rp.pod) then
+        tags := "candidates-left-unlabelled" :: tags
+      if (List.range (planned.length + 1)).any (fun b => b ≥ 1 &&
+          decide ((labelled cfg b (withPods rps iafter) : Int) < increment planned b)) then
+        tags := "budget-left-unused" :: tags
+      if (List.range (planned.length + 1)).any (fun b => b ≥ 1 &&
+          decide ((labelled cfg b rps : Int) > increment planned b)) then
+        tags := "batch-over-labelled-before" :: tags
+      holds := [("C12.i", okLive cfg rps ips), ("C12.ii", okBudget cfg planned rps (withPods rps iafter)),
+                ("C12.iii", okFresh cfg rps ips)] ++ holds
+  if implRes == "ok" then
+    let s ← jget impl "second"
+    let sps ← fArr s "patches"
+    holds := ("C12.iv", (← fStr s "res") == "ok" && sps.isEmpty) :: holds
+    if !sps.isEmpty then tags := "second-pass-patches" :: tags
+  let sc ← jget impl "scrambled"
+  holds := ("C12.v", (← fStr sc "res") == implRes && (← jget sc "patches").compress == (← jget impl "patches").compress) :: holds
+  return { model := model, holds := holds, tags := tags }
+
+def handleFilter (inp _impl : Json) : R OpResult := do
+  let cfg ← cfgOfJson (← jget inp "cfg")
+  let kind ← filterOfJson inp
+  let pods ← listOrNull podOfJson inp "pods"
+  let model := match applyFilter kind cfg pods with
+    | none => mkObj [("panic", boolJ true)]
+    | some fp => mkObj [("names", arrJ (fp.map (strJ ·.name)))]
+  let tags := [s!"op:filter:{filterName kind}", s!"pods:{bucket pods.length}"] ++
+    (if (applyFilter kind cfg pods).isNone then ["filter-panic"] else []) ++
+    (if pods.isEmpty then ["trivial"] else [])
+  return { model := model, tags := tags }
+
+def handleIncrements (inp _impl : Json) : R OpResult := do
+  let batches ← listOrNull RV.Drv.Arith.iosOfJson inp "batches"
+  let replicas ← fInt inp "replicas"
+  let cur ← fInt inp "cur"
+  let model := match plannedIncrements batches replicas cur with
+    | none => mkObj [("panic", boolJ true)]
+    | some l => mkObj [("res", arrJ (l.map intJ))]
+  return { model := model, tags := ["op:increments"] ++ (if (plannedIncrements batches replicas cur).isNone then ["plan-index-out-of-range"] else []) }
+
+def handleSatisfied (inp _impl : Json) : R OpResult := do
+  let pods ← listOrNull podOfJson inp "pods"
+  let id ← fStr inp "id"
+  let target ← fInt inp "target"
+  return { model := boolJ (batchLabelSatisfied pods id target), tags := ["op:satisfied"] }
+
+def handle : Handler := fun op inp impl =>
+  match op with
+  | "patch" => handlePatch inp impl
+  | "filter" => handleFilter inp impl
+  | "increments" => handleIncrements inp impl
+  | "satisfied" => handleSatisfied inp impl
+  | _ => .error s!"labelpatch: unknown op {op}"
+
 end RV.Drv.LabelPatch
